@@ -248,7 +248,14 @@ Call(e) ==
         Norm(d) == IF expHidden \/ preHidden THEN [NoJson(d) EXCEPT !.exp = "0"] ELSE NoJson(d)
         matches == {o \in outs : o.any \/ (e.r.cls \in o.cls /\ retOK(o) /\ Norm(o.doc) = Norm(postObs))}
         matched == matches # {}
-        ch   == IF matched THEN CHOOSE o \in matches : TRUE ELSE CHOOSE o \in outs : TRUE
+        \* the JSON flag is not readable through the key-value API: among outcomes that differ only in it, take the one
+        \* the feed observers report (the event checks below then compare everything else)
+        obsJson == IF e.skiplive THEN pre.json
+                   ELSE IF Len(LiveOf(e, c)) = 1 THEN LiveOf(e, c)[1].json ELSE DumpJson(nd[c], k, pre.json)
+        ch   == IF matched
+                THEN (IF \E o \in matches : o.doc.json = obsJson THEN CHOOSE o \in matches : o.doc.json = obsJson
+                      ELSE CHOOSE o \in matches : TRUE)
+                ELSE CHOOSE o \in outs : TRUE
         wild == matched /\ ch.any
         mut  == IF matched /\ ~wild THEN ch.mut ELSE postObs.cas # pre.cas
         live == LiveOf(e, c)
